@@ -82,7 +82,7 @@ def main(argv=None):
         print(f"CRASH property={prop} zero obligations generated")
         return 3
     kn = load_known()
-    known = [k for k in kn.get("findings", []) if k.get("property") == prop]
+    known = [k for k in kn.get("findings", []) if k.get("property") == prop or prop in k.get("also_properties", [])]
     jobs = [(modname, o.name, known, a.tier) for o in obs]
     ctxm = mp.get_context("fork")
     results = []
